@@ -21,7 +21,7 @@ var pureFuncs = map[string]any{
 	"strings.TrimLeft": strings.TrimLeft, "strings.TrimRight": strings.TrimRight, "strings.HasPrefix": strings.HasPrefix, "strings.HasSuffix": strings.HasSuffix,
 	"strings.Contains": strings.Contains, "strings.ContainsRune": strings.ContainsRune, "strings.ContainsAny": strings.ContainsAny, "strings.Index": strings.Index,
 	"strings.IndexByte": strings.IndexByte, "strings.IndexRune": strings.IndexRune, "strings.LastIndex": strings.LastIndex, "strings.Repeat": strings.Repeat,
-	"strings.Join": strings.Join, "strings.Split": strings.Split, "strings.Fields": strings.Fields, "strings.Cut": strings.Cut, "strings.EqualFold": strings.EqualFold,
+	"strings.Join": strings.Join, "strings.Split": strings.Split, "strings.Fields": strings.Fields, "strings.Cut": strings.Cut, "strings.CutPrefix": strings.CutPrefix, "strings.CutSuffix": strings.CutSuffix, "strings.EqualFold": strings.EqualFold,
 	"strings.Count": strings.Count, "strings.Compare": strings.Compare, "strings.Title": strings.ToTitle,
 	"strconv.Itoa": strconv.Itoa, "strconv.QuoteRune": strconv.QuoteRune, "strconv.QuoteToASCII": strconv.QuoteToASCII, "strconv.Unquote": strconv.Unquote,
 	"strconv.ParseInt": strconv.ParseInt, "strconv.ParseUint": strconv.ParseUint, "strconv.FormatInt": strconv.FormatInt, "strconv.Atoi": strconv.Atoi,
@@ -30,7 +30,12 @@ var pureFuncs = map[string]any{
 	"unicode.IsUpper": unicode.IsUpper, "unicode.IsLower": unicode.IsLower, "unicode.ToUpper": unicode.ToUpper, "unicode.ToLower": unicode.ToLower,
 	"unicode.IsControl": unicode.IsControl, "unicode.IsGraphic": unicode.IsGraphic,
 	"unicode/utf8.RuneCountInString": utf8.RuneCountInString, "unicode/utf8.RuneLen": utf8.RuneLen, "unicode/utf8.ValidString": utf8.ValidString,
-	"unicode/utf8.ValidRune": utf8.ValidRune,
+	"unicode/utf8.ValidRune": utf8.ValidRune, "unicode/utf8.DecodeRuneInString": utf8.DecodeRuneInString, "unicode/utf8.DecodeLastRuneInString": utf8.DecodeLastRuneInString,
+	"unicode/utf8.FullRuneInString": utf8.FullRuneInString, "unicode/utf8.RuneStart": utf8.RuneStart,
+	"strconv.Quote": strconv.Quote, "strconv.IsPrint": strconv.IsPrint, "strconv.IsGraphic": strconv.IsGraphic, "strconv.CanBackquote": strconv.CanBackquote,
+	"strconv.QuoteToGraphic": strconv.QuoteToGraphic, "strconv.QuoteRuneToGraphic": strconv.QuoteRuneToGraphic,
+	"strings.IndexAny": strings.IndexAny, "strings.ToValidUTF8": strings.ToValidUTF8, 
+	"unicode.IsPunct": unicode.IsPunct, "unicode.IsSymbol": unicode.IsSymbol, "unicode.IsMark": unicode.IsMark, "unicode.IsNumber": unicode.IsNumber,
 	"fmt.Sprint": fmt.Sprint,
 }
 
